@@ -256,6 +256,9 @@ func ruleC03(w *World, r *Report) {
 	ruleC03InPlace(w, r)
 	ruleC03StoreKey(w, r)
 	ruleC03Scratch(w, r)
+	r.withRule("R03.11", func() { ruleC05Complete(w, r) })
+	ruleStoredIsProgrammed(w, r, "C03", "R03.12")
+	ruleBessWorkersReportTrue(w, r, "R03.13")
 }
 
 // priorityShape: conv(K - precedence) with K ≥ 2^32-1 computed in an unsigned type of ≥ 32 bits.
@@ -1130,4 +1133,89 @@ func ruleC03Scratch(w *World, r *Report) {
 		}
 	}
 	r.floor("R03.10 in-loop parse call sites", n, 6)
+}
+
+// ruleStoredIsProgrammed (R03.12, re-filed as R07.10): the PDR the session stores, the PDR the datapath is
+// programmed with and the PDR the response reports are one value. PDRs are held by value, so (a) nothing
+// is written to the scratch PDR after it was handed to session.CreatePDR / appended to the message list in
+// the same iteration, and (b) no field of an element of the message lists is written in place afterwards —
+// either would make the copies differ (the stored and programmed PDR keeps TEID 0 / mask 0, a wildcard,
+// while the response reports the chosen TEID).
+func ruleStoredIsProgrammed(w *World, r *Report, prop, rule string) {
+	n := 0
+	for _, hn := range []string{"pfcpiface.(*PFCPConn).handleSessionEstablishmentRequest", "pfcpiface.(*PFCPConn).handleSessionModificationRequest"} {
+		h := w.Fn(prop, hn)
+		create := w.Fn(prop, "pfcpiface.(*PFCPSession).CreatePDR")
+		for _, c := range callsTo(h, create) {
+			call := c.(*ssa.Call)
+			ld, ok := call.Call.Args[1].(*ssa.UnOp)
+			if !ok || ld.Op != token.MUL {
+				continue
+			}
+			al, ok := ld.X.(*ssa.Alloc)
+			if !ok {
+				continue
+			}
+			n++
+			var late ssa.Instruction
+			// stores to fields of the scratch PDR (directly, or to a field of a nested struct)
+			var fieldStores []*ssa.Store
+			var walk func(v ssa.Value, d int)
+			walk = func(v ssa.Value, d int) {
+				if d > 3 || v.Referrers() == nil {
+					return
+				}
+				for _, ref := range *v.Referrers() {
+					switch x := ref.(type) {
+					case *ssa.FieldAddr:
+						for _, rr := range *x.Referrers() {
+							if st, ok := rr.(*ssa.Store); ok && st.Addr == ssa.Value(x) {
+								fieldStores = append(fieldStores, st)
+							}
+						}
+						walk(x, d+1)
+					}
+				}
+			}
+			walk(al, 0)
+			for _, st := range fieldStores {
+				if st.Parent() != h {
+					continue
+				}
+				// reachable from the call without starting the next iteration (the scratch cell is re-made there)
+				if reach(h, call, func(i ssa.Instruction) bool { return i == ssa.Instruction(st) }, func(i ssa.Instruction) bool { return i == ssa.Instruction(al) }, nil) != nil {
+					late = st
+				}
+			}
+			pos := w.Pos(call.Pos())
+			if late != nil {
+				pos = w.Pos(late.Pos())
+			}
+			r.check(late == nil, rule, hn, "the PDR is complete when the session takes its copy", pos, "no field of the scratch PDR is written after CreatePDR", "a field of the PDR is filled in after session.CreatePDR took its copy: the session (which is what the datapath is programmed from and what the release paths read) keeps the old value — for the UP-chosen TEID that is TEID 0 / mask 0, a rule that matches every tunnel, while the response reports the chosen TEID")
+		}
+		// (b) in-place writes into the message lists
+		allInstrs(h, func(i ssa.Instruction) {
+			st, ok := i.(*ssa.Store)
+			if !ok {
+				return
+			}
+			fa, ok := st.Addr.(*ssa.FieldAddr)
+			if !ok {
+				return
+			}
+			ia, ok := fa.X.(*ssa.IndexAddr)
+			if !ok {
+				return
+			}
+			if nt := namedOf(ia.Type()); nt == nil || nt.Obj().Name() != "pdr" {
+				return
+			}
+			s := symOf(ia.X).String()
+			if strings.Contains(s, "PFCPSession") || strings.Contains(s, "GetSession") {
+				return // the session's own list (MarkSessionQer etc. are judged elsewhere)
+			}
+			r.bad(rule, hn, "the lists of new PDRs are built from complete values", w.Pos(st.Pos()), "field "+fieldVar(fa).Name()+" of an element of "+s+" is written in place: the copy the session took when the PDR was created does not get the value, so what is stored / programmed differs from what is reported")
+		})
+	}
+	r.floor(rule+" CreatePDR call sites", n, 1)
 }
